@@ -436,6 +436,125 @@ def _constv(F, e):
     return None
 
 
+SERIAL_SETTERS = {'ogg_stream_reset_serialno', 'ogg_stream_init', 'ogg_stream_clear'}
+
+
+def _handle_state(F, n):
+    """tracked handle state a member node denotes: 'offset' (vf->offset) or 'os.serialno' (vf->os.serialno)"""
+    nd = F.ex[n]
+    if nd['k'] != 'member':
+        return None
+    if nd.get('record') == VF and nd['field'] == 'offset':
+        return 'offset'
+    if nd['field'] == 'serialno' and nd.get('record') == 'ogg_stream_state':
+        b = F.ex[F.strip_casts(nd['c'][0])]
+        if b['k'] == 'member' and b.get('record') == VF and b['field'] == 'os':
+            return 'os.serialno'
+    return None
+
+
+def r09_8(chk, P, E):
+    chk.rule('R09.8', 'a link\'s table entries come from that link\'s header fetch: wherever a value stored into a per-link table of '
+             'the handle derives (through locals, reaching definitions; through parameters, every call site) from a read of the '
+             'handle\'s stream position vf->offset or stream serial number vf->os.serialno, the nearest preceding call that may '
+             'write that state (K3 write sets for the position; transitive callers of ogg_stream_reset_serialno/_init/_clear '
+             'for the serial number) is the header fetch _fetch_headers (or there is none since function entry): the read '
+             'sees this link\'s header fetch, not a later page fetch or a deeper recursion level')
+    import prov
+    H = P.need('_fetch_headers')
+    # who may write the tracked state
+    off_writers = {k for k, sm in E.summ.items() if any(r == VF and f == 'offset' for (o, r, f) in sm['stores'])}
+    ser_writers = set()
+    direct = set()
+    for F in P.functions():
+        if any(F.ex[c]['callee'].get('d') in SERIAL_SETTERS for c in F.calls()):
+            direct.add(P.key(F))
+    changed = True
+    ser_writers = set(direct)
+    while changed:
+        changed = False
+        for F in P.functions():
+            k = P.key(F)
+            if k in ser_writers:
+                continue
+            for c in F.calls():
+                if any(t in ser_writers for t in P.call_targets(F, c)):
+                    ser_writers.add(k)
+                    changed = True
+                    break
+    chk.require(P.key(H) in off_writers and P.key(H) in ser_writers, '_fetch_headers no longer establishes the position and the serial number')
+
+    def call_writes(F, c):
+        ws = set()
+        nm = F.ex[c]['callee'].get('d')
+        tg = P.call_targets(F, c)
+        if any(t in off_writers for t in tg):
+            ws.add('offset')
+        if nm in SERIAL_SETTERS or any(t in ser_writers for t in tg):
+            ws.add('os.serialno')
+        return ws
+
+    cache = {}
+
+    def pv(F):
+        k = P.key(F)
+        if k not in cache:
+            cache[k] = prov.Prov(P, F, _handle_state, call_writes, array_fields=TABLES)
+        return cache[k]
+
+    def expand(F, atoms, depth, trail):
+        """replace ('param', i) by the provenance of the argument at every call site of F"""
+        out = set()
+        for a in atoms:
+            if a[0] != 'param' or depth >= 3:
+                out.add(a + (trail,) if a[0] == 'state' else a)
+                continue
+            sites = []
+            for G in P.functions():
+                for c in G.calls(F.name):
+                    if P.key(F) in P.call_targets(G, c) and a[1] < len(G.ex[c]['c']):
+                        sites.append((G, c))
+            if not sites:
+                out.add(a)
+            for G, c in sites:
+                arg = G.ex[c]['c'][a[1]]
+                sub = pv(G).prov_at(arg, c)
+                out |= expand(G, sub, depth + 1, trail + (f'{F.params[a[1]]["name"]} <- {G.name}:{G.loc(c)}',))
+        return out
+
+    n = 0
+    for F in P.functions():
+        if not F.file.endswith('vorbisfile.c'):
+            continue
+        stores = []
+        for e in F.nodes('assign'):
+            nd = F.ex[e]
+            l = F.ex[F.strip_casts(nd['c'][0])]
+            if l['k'] != 'sub':
+                continue
+            b = F.ex[F.strip_casts(l['c'][0])]
+            if b['k'] == 'member' and b.get('record') == VF and b['field'] in TABLES:
+                stores.append((e, b['field']))
+        if not stores:
+            continue
+        A = pv(F)
+        for e, tab in stores:
+            atoms = expand(F, A.prov_at(F.ex[e]['c'][1], e), 0, ())
+            st = [a for a in atoms if a[0] == 'state']
+            if not st:
+                continue
+            bad = [a for a in st if not (a[2] == 'entry' or (a[2][0] == 'call' and a[2][1] == H.name))]
+            n += 1
+            chk.ob('R09.8', F.name, f'{tab}-entry-from-this-links-header-fetch@{F.s(F.ex[e]["c"][0])}', not bad, F.where(e),
+                   '; '.join(sorted({f"vf->{a[1]} read on line {a[3]} sees {a[2] if a[2] == 'entry' else a[2][1]}" + (f" (via {' / '.join(a[4])})" if a[4] else '') for a in st}))
+                   if not bad else
+                   f'{F.s(e)[:70]}: the value derives from vf->{bad[0][1]} read on line {bad[0][3]}' +
+                   (f' (via {" / ".join(bad[0][4])})' if bad[0][4] else '') +
+                   f', where the last writer of that state is {bad[0][2][1] if bad[0][2][0] == "call" else "a direct store"} on line {bad[0][2][-1]}, '
+                   f'not {H.name}: the entry describes whatever that call left behind (a later page, or a deeper link)')
+    return n
+
+
 def run(chk, P):
     r09_7(chk, P)
     chk.floor('R09.7', 4)
@@ -449,6 +568,11 @@ def run(chk, P):
     chk.floor('R09.4', 4)
     r09_5(chk, P)
     chk.floor('R09.5', 6)
+    import k3
+    E = getattr(P, '_effects', None) or k3.Effects(P)
+    P._effects = E
+    r09_8(chk, P, E)
+    chk.floor('R09.8', 3)
     import frames
     frames.c09(chk, P)
     chk.trusted += ['clang 14 front end', 'exact evaluation of subscript expressions for L = 0,1,2 (linear forms)', 'K4 symbolic bounds']
